@@ -118,7 +118,7 @@ def gen_case(rng, profile=None):
         r = rng.below(20)
         if r == 0:
             ops.append("P" + "".join(rng.choice("SSSP") for _ in range(rng.range(1, 4))))
-        elif r == 1 and profile in ("hostile", "mtu"):
+        elif r == 1 and profile == "hostile":
             ops.append("P" + "".join(rng.choice("SSEX") for _ in range(rng.range(1, 3))))
         else:
             ops.append("P")
@@ -129,10 +129,12 @@ def gen_case(rng, profile=None):
             if rng.below(3) == 0:
                 advance([200_000_000, 250_000_000])
                 poll()                       # SYN-ACK resend
-            ops.append(p.state_ack(advance=1))   # the initiator's first packet acks isn
-            p.acked = 1 if False else p.acked
+            ops.append(p.state_ack(advance=0))   # the initiator's first packet acks isn - 1
     if profile == "mtu":
-        ops.append("L%d" % rng.choice([100, 300, 548, 700, 1000, 1200, 1400]))
+        # a path that refuses datagrams above some size, never below what the family guarantees
+        ops.append("L%d" % (rng.choice([548, 600, 700, 1000, 1200, 1400]) if cfg[1] else rng.choice([1252, 1300, 1400])))
+    elif profile == "hostile" and rng.below(4) == 0:
+        ops.append("L%d" % rng.choice([20, 100, 300]))
     for _ in range(n):
         r = rng.below(100)
         if profile == "bulk_send":
@@ -208,3 +210,146 @@ def gen_case(rng, profile=None):
 def gen(rng, tier, profiles=None):
     n = 600 if tier == "quick" else 12000
     return [gen_case(rng, profile=(rng.choice(profiles) if profiles else None)) for _ in range(n)]
+
+
+# ----------------------------------------------------------------------------- closed loop
+def parse_trace(out):
+    """Extract from an impl observation line what a real peer would know: every datagram
+    emitted (type, seq, ack, wnd, plen), and the last fingerprint."""
+    pkts, fp, finished = [], None, False
+    for t in out.split():
+        if not t.startswith("P:"):
+            continue
+        parts = t.split("/")
+        if parts[0] not in ("P:PEND",):
+            finished = True
+        if parts[1] != "-":
+            for p in parts[1].split(";"):
+                f = p.split(",")
+                if len(f) >= 9:
+                    pkts.append((int(f[0]), int(f[1]), int(f[2]), int(f[3]), int(f[8].split(":")[0])))
+        if len(parts) > 4:
+            fp = parts[4].split("|")[0].split(",")
+    return pkts, fp, finished
+
+
+def min_datagram(cfg):
+    return (576 - 28 + 20 - 20) if cfg[1] else (1280 - 48)   # smallest datagram the family guarantees
+
+
+def gen_closed(rng, run_impl, n, rounds=6):
+    """Builds n cases in `rounds` rounds; after each round the implementation is run on the
+    prefix and the scripted peer answers what it actually saw on the wire."""
+    cases = []
+    for _ in range(n):
+        cfg = gen_config(rng)
+        profile = rng.choice(["transfer", "transfer", "loss", "teardown", "recv", "mtu", "window"])
+        now = cfg[16] if cfg[0] == "out" else 0
+        ops = []
+        if profile == "mtu":
+            lim = rng.choice([548, 600, 800, 1000, 1200, 1300, 1400]) if cfg[1] else rng.choice([1252, 1300, 1400])
+            ops.append(f"L{lim}")
+        cases.append({"cfg": cfg, "ops": ops + ["P"], "now": now, "profile": profile, "ts": 1,
+                      "peer_next": (cfg[12] + 1) % 65536 if cfg[0] == "in" else cfg[12],
+                      "pstart": 0, "wstart": 0, "done": False})
+    for rnd in range(rounds):
+        lines = ["vsock " + " ".join(str(x) for x in c["cfg"]) + " " + " ".join(c["ops"]) for c in cases]
+        outs = run_impl(lines)
+        for c, out in zip(cases, outs):
+            if c["done"]:
+                continue
+            pkts, fp, finished = parse_trace(out)
+            if finished or fp is None:
+                c["done"] = True
+                continue
+            cfg, ops = c["cfg"], c["ops"]
+            data = [p for p in pkts if p[0] == 0]
+            fins = [p for p in pkts if p[0] == 1]
+            seq_nr = int(fp[3])
+            # everything the endpoint has numbered so far is below seq_nr
+            highest = (seq_nr - 1) % 65536
+            our_ack = int(fp[5])              # what the endpoint has consumed from the peer
+            wnd = rng.choice([1048576, 1048576, 100000, 3000, 1000]) if c["profile"] != "window" \
+                else rng.choice([0, 100, 528, 1000, 1048576])
+
+            def msg(t, seq, ack, plen=0, sack="-"):
+                c["ts"] += rng.range(1, 5000)
+                m = f"M{t},{seq % 65536},{ack % 65536},{wnd},{c['ts'] % 2**32},{plen},{c['pstart'] % 251},{sack}"
+                c["pstart"] += plen
+                return m
+
+            def adv(choices):
+                c["now"] += rng.choice(choices)
+                ops.append(f"T{c['now']}")
+
+            r = rng.below(100)
+            prof = c["profile"]
+            if rnd == 0 and cfg[0] == "in":
+                ops.append(msg(2, c["peer_next"], highest if False else (int(fp[3]) - 1) % 65536))
+            if prof in ("transfer", "mtu", "window", "loss", "teardown") and r < 70:
+                ln = rng.choice([100, 1000, 3000, 10000, 40000])
+                ops.append(f"W{ln},{c['wstart'] % 251}")
+                c["wstart"] += ln
+                ops.append("P")
+            if prof == "recv" or r >= 85:
+                for _ in range(rng.range(1, 4)):
+                    plen = rng.choice([1, 100, 528, 1400])
+                    mode = rng.below(10)
+                    seq = c["peer_next"] + (rng.range(1, 3) if mode == 0 else 0)
+                    if mode != 0:
+                        c["peer_next"] = (c["peer_next"] + 1) % 65536
+                    ops.append(msg(0, seq, highest, plen))
+                ops.append("P")
+                if rng.below(2):
+                    ops.append("R%d" % rng.choice([100, 2000, 100000]))
+            # acknowledgements informed by what was actually sent
+            k = rng.below(100)
+            if prof == "loss" and k < 35 and len(data) >= 3:
+                # lose the first outstanding segment: duplicate ACKs / SACK for the later ones
+                first = int(fp[4])   # placeholder: ack below the highest
+                base = (highest - rng.range(2, min(6, len(data)))) % 65536
+                if rng.below(2):
+                    for _ in range(3):
+                        ops.append(msg(2, c["peer_next"], base))
+                else:
+                    bits = 0
+                    for i in range(rng.range(1, 4)):
+                        bits |= 1 << i
+                    ops.append(msg(2, c["peer_next"], base, 0, "%02x00000000000000" % bits))
+                    ops.append(msg(2, c["peer_next"], base, 0, "%02x00000000000000" % (bits | 8)))
+                    ops.append(msg(2, c["peer_next"], base, 0, "%02x00000000000000" % (bits | 24)))
+                ops.append("P")
+                adv([1_000_000, 50_000_000])
+                ops.append("P")
+            elif prof == "loss" and k < 60:
+                adv([3_500_000_000, 7_000_000_000, 700_000_000])
+                ops.append("P")
+            elif k < 90:
+                upto = highest if rng.below(3) else (highest - rng.range(0, 3)) % 65536
+                ops.append(msg(2, c["peer_next"], upto))
+                ops.append("P")
+            adv([0, 1_000_000, 40_000_000, 300_000_000])
+            ops.append("P")
+            if prof == "teardown" and rnd >= 1:
+                ch = rng.below(6)
+                if ch == 0:
+                    ops.append("H")
+                elif ch == 1:
+                    ops += ["DR", "DW"]
+                elif ch == 2:
+                    ops.append(msg(1, c["peer_next"], highest))
+                    c["peer_next"] = (c["peer_next"] + 1) % 65536
+                elif ch == 3:
+                    ops.append("DW")
+                ops.append("P")
+            if fins:
+                # acknowledge our FIN exactly, sometimes answer with the peer's FIN
+                if rng.below(3):
+                    ops.append(msg(2, c["peer_next"], fins[-1][1]))
+                else:
+                    ops.append(msg(1, c["peer_next"], fins[-1][1]))
+                    c["peer_next"] = (c["peer_next"] + 1) % 65536
+                ops.append("P")
+                adv([0, 1_100_000_000])
+                ops.append("P")
+    return ["vsock " + " ".join(str(x) for x in c["cfg"]) + " " + " ".join(c["ops"]) for c in cases]
